@@ -69,8 +69,18 @@ def r15_1(ctx):
     es, sl = statuses(ctx)
     outs = Outcomes(OK((es["SUCCESS"],)), OK((sl["OK"],)), *[OK((m,)) for m in rejections(ctx)],
                     RAISE("TimeoutError"), RAISE("EzspError"), RAISE("CancelledError"))
+    def write_model(px_, t, a, k, fr):
+        # is the index being programmed still in the free set while the command is in flight?  (another subscribe running
+        # during this await would then pick the same index)
+        me = fr.self_obj
+        av = me.fields.get("_available") if isinstance(me, Obj) else None
+        idx_ = a[0] if a else k.get("index")
+        if isinstance(av, set):
+            px_.emit("mark", "index-still-free-during-write" if idx_ in av else "index-claimed-before-write", frame=fr)
+        return outs
+
     for free in ({5}, {5, 9}, {0, 1, 2}):
-        px = PX(repo, models=[("self._ezsp.setMulticastTableEntry", outs)], inline=same_class())
+        px = PX(repo, models=[("self._ezsp.setMulticastTableEntry", write_model)], inline=same_class())
 
         def setup():
             return self_obj(cls, {"_multicast": {}, "_available": set(free)}), {"group_id": Sym("g")}
@@ -92,8 +102,12 @@ def r15_1(ctx):
                 idx = wr[0].args[0] if wr[0].args else wr[0].kwargs.get("index")
                 ent = wr[0].args[1] if len(wr[0].args) > 1 else wr[0].kwargs.get("value")
                 accepted = isinstance(wr[0].extra, tuple) and is_ok(ctx, wr[0].extra[0])
+                marks = [e.what for e in p.events if e.kind == "mark"]
                 if idx not in free:
                     bad = f"index {idx!r} written to the NCP was not a free index {sorted(free)}"
+                elif "index-claimed-before-write" not in marks:
+                    bad = (f"index {idx!r} is still in the free set while its table write is awaited: a second subscribe started meanwhile takes the same "
+                           "index and the two groups overwrite each other in the NCP (claim the index before the await, give it back on failure)")
                 elif (avail | used) != set(free) or (avail & used):
                     bad = (f"free indices {sorted(free)} -> free {sorted(avail)}, used {sorted(used)}: every index must stay either free or used "
                            f"by exactly one group ({'leaked' if (avail | used) != set(free) else 'both free and used'})")
@@ -110,7 +124,7 @@ def r15_1(ctx):
                     elif p.terminal == "return" and is_ok(ctx, p.value):
                         bad = "write not accepted but subscribe reports OK"
             if bad:
-                cat = "leak" if "leaked" in bad else ("double" if "both free and used" in bad else "other")
+                cat = "leak" if "leaked" in bad else ("double" if "both free and used" in bad else ("claim" if "still in the free set" in bad else "other"))
                 ctx.violation(f"subscribe:{'raise' if p.terminal == 'raise' else 'return'}:{cat}", f"{key}: {bad}", func=f,
                               trace=p.trace(30), construct=key)
             else:
@@ -288,7 +302,16 @@ def r15_7(ctx):
     ctx.fn(f)
     cls = repo.cls(MC, "Multicast")
     es, sl = statuses(ctx)
-    px = PX(repo, models=[("self._initialize", Outcomes(OK(None))), ("self.subscribe", Outcomes(OK(sl["OK"]), OK(sl["FAIL"])))], inline=same_class())
+    def scan(px_, t, a, k, fr):
+        # what the table scan found in the NCP (which was not power-cycled): group 20 (still a member) at index 2 and group 99
+        # (no longer in the stored membership) at index 4; indices 0, 1, 3 free
+        me = fr.self_obj
+        me.fields["_multicast"] = {20: (Sym("entry20"), 2), 99: (Sym("entry99"), 4)}
+        me.fields["_available"] = {0, 1, 3}
+        return Outcomes(OK(None))
+
+    px = PX(repo, models=[("self._initialize", scan), ("self.subscribe", Outcomes(OK(sl["OK"]), OK(sl["FAIL"]))),
+                          ("self._ezsp.setMulticastTableEntry", Outcomes(OK((es["SUCCESS"],))))], inline=same_class())
 
     def setup():
         eps = {0: Obj(TypeRef("Endpoint"), {"member_of": {10: "g10"}}, tag="ep0"), 1: Obj(TypeRef("Endpoint"), {"member_of": {20: "g20", 30: "g30"}}, tag="ep1"),
@@ -302,6 +325,17 @@ def r15_7(ctx):
         ok = p.terminal == "return" and aw and aw[0].what == "self._initialize" and sorted(subs) == [20, 30, 40]
         ctx.require(ok, "startup", f"startup awaits {[e.what for e in aw[:1]]} first and subscribes groups {subs}; must scan the table first and then "
                     "subscribe exactly the groups of the non-ZDO endpoints [20, 30, 40]", func=f, trace=p.trace(12))
+        # the host's view keeps mirroring the NCP: an entry found programmed in the NCP stays recorded (with its index, which
+        # stays out of the free set) unless start-up cleared it in the NCP with an accepted table write
+        mc, av = p.store["self"].get("_multicast"), p.store["self"].get("_available")
+        cleared = {e.args[0] for e in aw if e.what.endswith("setMulticastTableEntry") and e.args}
+        if isinstance(mc, dict) and isinstance(av, set):
+            for grp, idx in ((20, 2), (99, 4)):
+                kept = grp in mc and isinstance(mc[grp], tuple) and mc[grp][1] == idx and idx not in av
+                ctx.require(kept or idx in cleared, f"startup:mirror:{'member' if grp == 20 else 'stale'}-entry",
+                            f"the NCP has group {grp} programmed at index {idx}; after start-up the host records {mc.get(grp)!r}, free set {sorted(av)}, and no "
+                            "table write cleared that index: the host's view no longer matches the NCP (the index is free for the host but in use in the NCP)",
+                            func=f, trace=p.trace(14))
 
 
 @rule("R15.8", ["C15"], "T-FUN", floor=4)
